@@ -2,6 +2,8 @@
 # usage: try_seed.sh <property> <patch.diff> [tier]  -- applies the patch to /repo, runs the check, reverts. Never commits.
 set -u
 P=$1; PATCH=$2; TIER=${3:-quick}
+# a seeded change must never be visible to another check run: refuse while one is in progress
+if pgrep -f "verif/chec[k] C" > /dev/null; then echo "ANOTHER CHECK IS RUNNING - not touching /repo"; exit 9; fi
 cd /repo || exit 9
 if [ -n "$(git status --porcelain --untracked-files=no)" ]; then echo "REPO NOT CLEAN"; exit 9; fi
 git apply --check "$PATCH" || { echo "PATCH DOES NOT APPLY"; exit 9; }
